@@ -821,7 +821,7 @@ impl Scenario for Rejections {
                 let via = if wide > 0 { rng.below(6) as u8 } else { rng.below(8) as u8 };
                 RejectCase::ZeroLen { n, at, seed: rng.next_u64(), ic: 1 + rng.below(4) as u8, via, pol, wide }
             }
-            6 | 7 => RejectCase::BadMeta { kind: rng.below(8) as u8, ic: 1 + rng.below(4) as u8, face, pol, with_tiles: rng.chance(50) },
+            6 | 7 => RejectCase::BadMeta { kind: rng.below(256) as u8, ic: 1 + rng.below(4) as u8, face, pol, with_tiles: rng.chance(50) },
             _ => RejectCase::UnknownIc { write: rng.chance(50), with_meta: rng.chance(50), face, tiles: rng.below(4) as u32, empty_root: rng.chance(30) },
         };
         to_value(&c)
@@ -915,12 +915,14 @@ impl Scenario for Rejections {
             RejectCase::BadMeta { kind, ic, face, pol, with_tiles } => {
                 let (es, data) = if with_tiles { simple_entries(3, u64::from(kind)) } else { (Vec::new(), Vec::new()) };
                 let root = spec::compress(ic, &spec::encode_dir(&es)).expect("oracle codec");
-                let meta = spec::compress(ic, non_object_json(kind).as_bytes()).expect("oracle codec");
+                let doc = non_object_json(kind);
+                assert!(matches!(serde_json::from_str::<Value>(&doc), Ok(v) if !v.is_object()), "harness: generated metadata must be valid non-object JSON");
+                let meta = spec::compress(ic, doc.as_bytes()).expect("oracle codec");
                 let n = es.len() as u64;
                 let img = assemble(ic, &root, &meta, &[], &data, (es.iter().map(|e| u64::from(e.run_length)).sum(), n, n));
                 let disk = SimDisk::new(img.clone(), &pol);
                 let r = sut::open(disk, face)?;
-                ensure!(r.is_err(), "C19:non-object-metadata-accepted", "archive whose metadata is `{}` opened successfully", non_object_json(kind));
+                ensure!(r.is_err(), "C19:non-object-metadata-accepted", "archive whose metadata is `{}` opened successfully", crate::scen_life::clip(&non_object_json(kind)));
                 // the same archive with object metadata opens (the rejection is due to the shape)
                 let meta_ok = spec::compress(ic, b"{\"a\":1}").expect("oracle codec");
                 let img_ok = assemble(ic, &root, &meta_ok, &[], &data, (es.iter().map(|e| u64::from(e.run_length)).sum(), n, n));
